@@ -202,6 +202,17 @@ CLAIMS = {
         design="6 C02",
         technique="fold rule in TLA+, TLC enumerates spelling pairs, cases judged by TLC; metamorphic re-run of other properties' TLC-generated behaviours under re-spelling",
     ),
+    "C09": dict(
+        spec="FsCatalog.tla / FsCatalogGen.tla / FsCatalogJudge.tla",
+        text="The catalog (schemas, tables / views with ordered typed columns, NOT NULL, comments) is explicit TLA+ state; every metadata "
+        "view (information_schema.tables / columns / views / databases, DESCRIBE, SHOW TABLES / OBJECTS per scope, SHOW SCHEMAS, SHOW "
+        "PRIMARY KEYS, description of SELECT *) is an operator over it, so Consistent, NoGhosts and NoInternals hold by construction and "
+        "are model-checked; the as-built side tables (_fs_tables_ext, _fs_columns_ext) are modelled next to it and TLC shows that "
+        "reading them violates the property. DDL histories with reads in between (sampled transition cover + walks) run on the code, "
+        "with a decoy database of equal names; TLC judges every read.",
+        design="6 C09",
+        technique="explicit TLA+ spec + TLC model checking; TLC-generated DDL histories replayed on the code, every metadata view judged by TLC (trace validation)",
+    ),
 }
 
 
